@@ -84,6 +84,26 @@ CHECKS.update({
         technique="Kani/CBMC equivalence checking of macro expansion vs documented chain on adversarial operand catalogue (translation validation)"),
 })
 
+CHECKS.update({
+    "C10": dict(
+        level="model_checking", ref="3 (C10)",
+        text="Bounded model checking over move-only payloads (a token type without Clone/Copy whose drops are counted): every operator alone, sampled multi-step chains and the wrapper family, "
+             "under join!/join_spawn! as only or second branch, are compared with the reference chain for ALL symbolic inputs on values, per-callback call counts, arguments and call order, and after "
+             "both sides went out of scope created == dropped (count and value sum). Profile programs with init blocks, captures at every later position, second actions and handlers show each item "
+             "runs exactly once when reached and never otherwise. A Clone/Copy requirement would be a build-stage violation.",
+        technique="Kani/CBMC bounded model checking of macro expansions with call/drop counters vs reference chain"),
+})
+
+CHECKS.update({
+    "C11": dict(
+        level="model_checking", ref="3 (C11)",
+        text="Bounded model checking with an event clock: 21 operator sites (every operator that takes expression operands, both operands of fold/try_fold, block initial values) x step 0/1 x wrapper "
+             "depth 0-2 under join!/try_join!/join_spawn!, plus future-level sites under join_async!/try_join_async!; two-branch programs whose block operands log their evaluation. For ALL symbolic inputs "
+             "(and thread schedules) each block is evaluated exactly once when its step is reached, after every event of the previous step, before every callback of its own step, in "
+             "branch-then-position(-then-operand) order, and the value it produced is the operand actually used (value equality with the reference chain).",
+        technique="Kani/CBMC bounded model checking of macro expansions, capture/callback event-order monitors"),
+})
+
 NOT_APPLICABLE = {
     "C15": "Quantifies over token streams fed to the expander and has no run-time dimension; deciding it needs symbolic execution of JoinInputDefault::parse + generate_join, "
            "and Kani 0.68 ICEs on proc_macro2::Ident::new / does not finish pushing one token into a TokenStream in 900 s (DESIGN.md 1.1, 4). A hand model of the parser would not be the repository's code.",
